@@ -44,6 +44,19 @@ FAULTS = [
     ("negative-shift", ".word 1 << -1", "1 << -1", "arithmetic-error"),
     ("lonely-quote", ".word '", "'", "unterminated-string"),
     ("comma-after-name", "mov ,r0", ",r0", "invalid-insn"),
+    # the culprit is the second (or later) of a chain of prefix operators, blanks in between
+    ("hash-after-hash", "mov #-#3,r0", "#3", "unexpected-value"),
+    ("register-after-hash", "mov # %3, r1", "%3", "unexpected-value"),
+    ("hash-after-minus", ".word - #5", "#5", "unexpected-value"),
+    ("deferred-after-minus", ".word -@5", "@5", "unexpected-value"),
+    ("hash-after-deferred", "mov @-#5, r0", "#5", "unexpected-value"),
+    ("deferred-after-absolute", "clr @#@5", "@5", "unexpected-value"),
+    ("deferred-in-brackets", "mov #<-@3>, r0", "@3", "unexpected-value"),
+    ("register-after-two-signs", ".word - - r1", "r1", "unexpected-register"),
+    ("register-after-tilde", ".word ~\t-r2", "r2", "unexpected-register"),
+    ("bad-digits-after-two-tildes", ".word ~ ~ 19", "19", "invalid-number"),
+    ("undefined-after-two-signs", "mov #- -UNDEF2, r0", "UNDEF2", "undefined-symbol"),
+    ("too-large-after-hash", "mov # -400000, r0", "-400000", "value-out-of-bounds"),
 ]
 
 FILLER = [
